@@ -99,7 +99,7 @@ func discharge(dir string, vc *VC, o *Obligation, timeoutS int, thorough bool) {
 			setResult(o, r, want)
 			return
 		}
-		if o.Cover && r.verdict == "unknown" {
+		if o.Cover && (r.verdict == "unknown" || r.verdict == "timeout") {
 			// cannot refute satisfiability: not vacuous as far as the solver can tell
 			setResult(o, r, want)
 			return
